@@ -6,14 +6,18 @@ against the real parsers in sandboxed workers."""
 import os, re, itertools
 
 ID = 'C20'
-GENERATORS = ['gen_rip']
+GENERATORS = ['gen_rip', 'gen_ripline']
 COQ_TARGETS = ['Props/C20.vo', 'Run/RunC20.vo']
 PROPS_MODULE = 'Props.C20'
 THEOREMS = ['base36_total', 'base36_non_digit_is_error', 'parse_step_safe', 'tokenizer_safe', 'arity_bound', 'params_in_range', 'tok_resync',
-            'pstate_overflow_witness', 'row_loop_checked', 'row_guard_is_break', 'bar_rect_safe', 'put_pixel_safe', 'kernel_safe', 'kernel_seq_safe', 'rip_stream_safe']
+            'pstate_overflow_witness', 'row_loop_checked', 'row_guard_is_break', 'bar_rect_safe', 'put_pixel_safe', 'kernel_safe', 'kernel_seq_safe', 'rip_stream_safe',
+            # extension 1: line family
+            'line_canvas_generic', 'fill_x_generic', 'fill_y_generic', 'line_safe', 'rectangle_safe', 'draw_poly_safe', 'draw_poly_line_safe', 'line_cost',
+            'tokenizer_vec_range', 'kernel2_safe', 'kernel2_seq_safe', 'kernel2_modelled', 'rip_stream_safe2']
 SWEEP_LEMMAS = ['RipTokProofs.tables_ok (all 52 generated parse tables: every field index inside the struct, `_` arm is text or error, a continuing arm of a fixed-arity table has a successor, no empty fixed-arity table)',
                 'RipStreamProofs.kernel_weights_ok (no field of a kernel command is fed more than two base-36 digits)',
                 'RipTokProofs.lf_not_command (line feed is not a command letter in the three generated dispatch tables)',
+                'RipStream2Proofs.line_weights_ok (Line / Rectangle / polygon point count fields are fed two base-36 digits, LineStyle 2 + 4 + 2) and BgiLineProofs.line_patterns_shape / linestyle_from_range (5 line patterns, 16 pattern bits, LineStyle::from lands in 0..=4)',
                 'BgiProofs.fill_patterns_shape / ega_length / moduli / fillstyle_from_range / screen_size (generated constants: 13 patterns of 8 bytes, 64 EGA colours, colour moduli 16, FillStyle::from lands in 0..=12, window 640x350 <= 1024)']
 TRUSTED = ['Coq 8.16.1 kernel + vm_compute (table sweeps, model evaluation); no axioms (Print Assumptions: closed). Uint63 primitive integers are used ONLY by the canvas hash of Run/RunC20.v (stage C), in no theorem',
            'translator/gen_rip.py + vlib/rustsrc.py: dispatch tables, per-command parse tables, constants; token-for-token pins of parse_base_36 and the nine irregular parse functions',
@@ -538,6 +542,93 @@ DIRECTED_C = ['!|c0A|X0101|', '!|v05050A0A|B00000Z0Z|', '!|*|', '!|E|', '!|w0000
               '!|vHRHR0000|B0000ZZZZ|E|', '!|v0000ZZZZ|XHS00|XHR9P|XHS9P|', '!|v0005ZZ0A|S020F|E|', '!|m0509|g0A0B|', '!|w0A0A00001 |e|', '!|w050A0A0501|S010F|e|', '!|c0|', '!|X01|', '!|B0505|',
               '!|c0\\\n1|X0000|', '!|$A$|c01|', '!|1K|1E|1T0011001100|c02|', '!|#|c01|', '!|#x!|c01|', '!x!|c01|', '!|c01\n!|c02|', '!|v00000A0A|S020F|B00000A0A|W01|B00000A0A|']
 
+# ---- extension 1 (line family): streams with Line / Rectangle / Polygon / PolyLine / LineStyle on a small viewport, and the
+# primitives called directly with arbitrary i32 arguments
+SMALL_VP = ['|v00000K0F', '|v0502190K', '|v00000A0A', '|v0A000K0P', '|v0000140C', '|v03031E0K']
+LX = ['00', '00', '01', '03', '05', '08', '0A', '0F', '0K', '0P', '10', '1E', 'HR', 'ZZ']
+def gen_line_cmd(rng):
+    xy = lambda: rng.choice(LX) + rng.choice(LX)
+    c = rng.choice('LLLLRRPl==cWXBSm')
+    if c in 'LR': p = xy() + xy()
+    elif c in 'Pl':
+        k = rng.choice([0, 1, 2, 3, 3, 4, 5])
+        p = '0' + str(k) + ''.join(xy() for _ in range(k)) + rng.choice(['', '', '05', '0505', '050505'])
+        if rng.random() < 0.15: p = p[:rng.randrange(len(p) + 1)]
+    elif c == '=':
+        p = rng.choice(['00', '01', '02', '03', '04', '04', '05', '74', 'ZZ']) + rng.choice(['0000', '0001', 'FFFF', '5555', '0F0F', 'ZZZZ', '00ZZ', '1EKF']) + rng.choice(['01', '01', '01', '02', '03', '03', '05', '00', '08'])
+    elif c in 'cW': p = rng.choice(['00', '01', '02', '03', '04', '07', '0F', '0G'])
+    elif c in 'Xm': p = xy()
+    elif c == 'B': p = xy() + xy()
+    else: p = rng.choice(['00', '01', '02', '0B', '0C']) + rng.choice(['00', '01', '0F'])
+    m = rng.random()
+    if m < 0.08 and p: p = p[:rng.randrange(len(p))]
+    elif m < 0.14: p = p + ''.join(rng.choice(B36) for _ in range(rng.randint(1, 3)))
+    elif m < 0.18 and p: k = rng.randrange(len(p)); p = p[:k] + rng.choice(' !-,.;') + p[k+1:]
+    elif m < 0.22 and p: k = rng.randrange(len(p) + 1); p = p[:k] + rng.choice(['\\\n', '\\\r\n', '\r']) + p[k:]
+    term = '|' if rng.random() < 0.9 else rng.choice(['\n!', '\r\n!', '\n'])
+    return rip_cmd(0, c, p.replace('|', '0'), term)
+
+def gen_line_stream(rng):
+    cmds = [rng.choice(SMALL_VP)]
+    for _ in range(rng.choice([1, 2, 3, 5, 8, 12])): cmds.append(gen_line_cmd(rng))
+    s = '!' + ''.join(cmds)
+    if not s.endswith('\n') and rng.random() < 0.9: s += '|'
+    return s
+
+DIRECTED_L = ['!|L00000402|', '!|c0A|L00000A05|', '!|L0A050000|', '!|L000A0500|', '!|L05000500|', '!|L00050A05|', '!|L05050505|', '!|v00000K0F|L0000ZZZZ|', '!|v00000K0F|LZZZZ0000|', '!|v00000K0F|L00ZZZZ00|',
+              '!|v00000K0F|=010003|L00000K0F|', '!|v00000K0F|=045A5A02|R02020F0A|', '!|v00000K0F|=040000 1|L00000K0F|', '!|v05050K0F|=000005|R00000P0K|', '!|v00000K0F|=02000001|P03010105090905|',
+              '!|v00000K0F|l03010105050909|', '!|v00000K0F|P00|', '!|v00000K0F|l00|', '!|v00000K0F|P01|', '!|v00000K0F|P010505|', '!|v00000K0F|l020101|', '!|v00000K0F|=000003|*|', '!|=01000001|*|L00000A00|',
+              '!|v00000K0F|W01|L00000A0A|L00000A0A|', '!|v00000K0F|=0000ZZ|L05050A05|', '!|v00000K0F|=000000|L00000A05|', '!|v0000000F|L00000A05|', '!|vZZZZ0000|L00000A05|', '!|L0000ZZ01|', '!|L000001ZZ|']
+
+def gen_ripline_case(rng):
+    vp = rng.choice([(0, 0, 40, 30), (5, 2, 40, 30), (0, 0, 20, 15), (10, 10, 15, 15), (0, 0, 1295, 12), (3, 3, 6, 40), (0, 0, 0, 0), (600, 0, 700, 20), (30, 20, 40, 25)])
+    def coord(lo, hi):
+        r = rng.random()
+        if r < 0.70: return rng.randint(min(lo, hi), max(lo, hi))
+        if r < 0.82: return rng.randint(-20, 80)
+        if r < 0.93: return rng.choice([0, 1, 639, 640, 349, 350, 1295, 65535, -1, -300, -65535])
+        return rng.randint(-65535, 65535)
+    pt = lambda: [coord(vp[0], min(vp[2], vp[0] + 45)), coord(vp[1], min(vp[3], vp[1] + 30))]
+    style = rng.choice([0, 0, 0, 1, 2, 3, 4, 4, 7, 255, 260])
+    up = rng.choice([1, 0x5555, 0xF0F0, 0xFFFF, 1679615, 0x8001, -1, 70000, 0])
+    thick = rng.choice([1, 1, 1, 3, 3, 2, 0, 5, 9])
+    if vp[2] <= 40 and vp[3] <= 30 and rng.random() < 0.15: thick = rng.choice([40, 1295, 65535])
+    wm = rng.choice([0, 0, 0, 0, 1, 2, 3, 4])
+    kind = rng.choice([0, 0, 0, 1, 2, 3])
+    co = pt() + pt() if kind < 2 else sum([pt() for _ in range(rng.choice([0, 1, 2, 3, 4]))], [])
+    if kind == 0 and rng.random() < 0.15: co[2] = co[0]
+    if kind == 0 and rng.random() < 0.15: co[3] = co[1]
+    return list(vp) + [style, up, thick, wm, kind] + co
+
+DIRECTED_RL = [[0, 0, 40, 30, 0, 0, 1, 0, 0, 0, 0, 10, 5], [0, 0, 40, 30, 0, 0, 1, 0, 0, 10, 5, 0, 0], [0, 0, 40, 30, 0, 0, 1, 0, 0, 0, 5, 10, 0], [0, 0, 40, 30, 0, 0, 1, 0, 0, 3, 0, 0, 17],
+               [0, 0, 40, 30, 0, 0, 3, 0, 0, -65535, -65535, 65535, 65535], [0, 0, 40, 30, 1, 0, 1, 0, 0, 65535, 0, -65535, 1], [0, 0, 40, 30, 4, 0x5555, 2, 1, 0, 0, -65535, 1, 65535],
+               [5, 5, 20, 20, 2, 0, 5, 0, 1, 0, 0, 30, 30], [0, 0, 40, 30, 3, 0, 1, 0, 2, 1, 1, 20, 3, 9, 25], [0, 0, 40, 30, 0, 0, 1, 0, 3, 1, 1, 20, 3, 9, 25], [0, 0, 40, 30, 0, 0, 1, 0, 2], [0, 0, 40, 30, 0, 0, 1, 0, 3],
+               [0, 0, 40, 30, 0, 0, 65535, 0, 0, 5, 5, 9, 7], [0, 0, 40, 30, 0, 0, 0, 0, 0, 5, 5, 25, 7], [0, 0, 0, 0, 0, 0, 1, 0, 0, 0, 0, 5, 5], [30, 20, 10, 5, 0, 0, 1, 0, 0, 0, 0, 35, 25]]
+
+def zlit(v): return '(%d)' % v
+
+def correspondence_lines(ctx, rng):
+    """-> (cases, disagreements, nontrivial set, counters) for the line-family part of stage C"""
+    streams = [d.encode().decode('unicode_escape') for d in DIRECTED_L] + [gen_line_stream(rng) for _ in range(ctx.n(110, 1500))]
+    kc = DIRECTED_RL + [gen_ripline_case(rng) for _ in range(ctx.n(140, 1500))]
+    cases = ['ripobs2 ' + hx(s) for s in streams] + ['ripline ' + ' '.join(str(v) for v in c) for c in kc]
+    impl = ctx.impl(cases, per_case_timeout=10)
+    exprs = ['run_rip2 %s' % to_codes(s) for s in streams] + \
+            ['run_line %s [%s]' % (' '.join(zlit(v) for v in c[:9]), '; '.join(zlit(v) for v in c[9:])) for c in kc]
+    model = model_parallel(ctx, 'From IE Require Import Run.RunC20.\nLocal Open Scope Z_scope.', exprs)
+    dis = []; nontriv = set(); cnt = {'line_streams': len(streams), 'line_kernel_cases': len(kc), 'kernel_cases_drawing': 0, 'line_streams_unmodelled': 0}
+    for i, (c, r, m) in enumerate(zip(cases, impl, model)):
+        a = r[1] if (r is not None and r[0] == 'ok') else ([-1] if (r is not None and r[0] == 'panic') else None)
+        b = m
+        if b is not None and len(b) >= 1 and b[0] == -1: b = [-1]
+        if a != b or a is None:
+            dis.append({'case': c, 'stream': streams[i] if i < len(streams) else None, 'impl': r if r is None or r[0] != 'ok' else r[1], 'model': m})
+        else:
+            nontriv.add(c)
+            if i >= len(streams) and a != [-1] and a[2] > 0: cnt['kernel_cases_drawing'] += 1
+        if b == [-2]: cnt['line_streams_unmodelled'] += 1
+    return cases, dis, nontriv, cnt
+
 def model_parallel(ctx, imports, exprs, ways=16, timeout=900):
     """ctx.model caps its shard count at one per 50 expressions; a full-screen fill costs seconds in Coq, so the expressions are
     dealt round-robin to `ways` concurrent ctx.model calls (each on a shallow copy of ctx with its own case-file prefix)"""
@@ -581,8 +672,11 @@ def correspondence(ctx):
         n = st.count('|'); lens[n] = lens.get(n, 0) + 1
     dist['commands_per_stream'] = {str(k): v for k, v in sorted(lens.items())}
     dist['model_errors'] = getattr(ctx, 'model_errors', [])[:2]
-    return {'cases': len(cases), 'disagreements': dis, 'distinct_nontrivial': len(nontriv), 'distribution': dist,
-            'samples': [cases[0], cases[len(DIRECTED_C) + 1], cases[-1]]}
+    lcases, ldis, lnon, lcnt = correspondence_lines(ctx, rng)
+    dist.update(lcnt)
+    dist['model_errors'] += getattr(ctx, 'model_errors', [])[:2]
+    return {'cases': len(cases) + len(lcases), 'disagreements': dis + ldis, 'distinct_nontrivial': len(nontriv) + len(lnon), 'distribution': dist,
+            'samples': [cases[0], cases[len(DIRECTED_C) + 1], cases[-1], lcases[0], lcases[-1]]}
 
 def replay(ctx, body):
     from vlib import driver
